@@ -31,6 +31,20 @@ CHECKS = {
         "Trusted: harness JSON rendering of terms; the DeBruijn->Name conversion used before printing (itself monitored by C11).",
         "DESIGN.md §3 C15",
     ),
+    "C12": (
+        "exploration",
+        "runtime monitoring: four-way differential oracle (schema validation vs compiled expect vs independent Python type model vs independent reader of the published schema JSON) over generated types and conforming / near-miss Data",
+        "For generated type definitions, every conforming value and near-miss mutant is judged by Parameter::validate on the published schema, by the compiled `expect`, by an independent Python model of the Aiken type->Data encoding, and by an independent reader of the schema JSON; the up-cast of every value is compared with the model's encoding; a real validator checks redeemer/datum/parameter handling. Any disagreement not explained by a listed known finding is a violation.",
+        "Trusted: schema_ref/model.py and schema_ref/jsonschema_read.py (written from the documentation). Known findings are keyed by the type feature that explains the disagreement (bare Pair, @tag on a record, self-nested generic, alias of recursive generic, @list cast, unchecked datum, cast round-trip elimination); everything else is reported as `unexplained`.",
+        "DESIGN.md §3 C12",
+    ),
+    "C20": (
+        "exploration",
+        "runtime monitoring: crash/abort/blow-up monitor over subprocess shards with realistic stacks, hostile near-valid inputs, CPU-time growth series",
+        "Every decoder/parser/loader entry point is driven with mutants of valid encodings, unknown names, huge length prefixes and nesting families up to depth 1024 (<= 16 KiB) inside subprocess shards with the stack of the real entry point; a caught panic, a dead shard or >= 4 consecutive CPU-time doublings per +2 nesting levels is a violation; a bare watchdog timeout is inconclusive.",
+        "Trusted: the OS (rusage CPU time, exit status). Modest-input bound and stack sizes as stated in DESIGN.md; polynomial (e.g. cubic) slowness inside the bound is reported in evidence but not judged.",
+        "DESIGN.md §3 C20",
+    ),
 }
 
 NOT_YET = "check not built yet (work in progress; planned, see DESIGN.md)"
